@@ -377,6 +377,47 @@ class Interp:
     env.vars.update(variables)
     return Frame(self, env, modname, qual).eval(node)
 
+  def make_nested(self, modname, qual, variables):
+    """A nested function node evaluated with its free variables bound to the given values
+    (DESIGN A.1: sound over-approximation of every environment the constructor can build)."""
+    mod = self.load_module(modname)
+    n = self.fn_nodes.get((modname, qual))
+    if n is None:
+      raise Undecided(f"function {modname}:{qual} not found (renamed or removed)")
+    self.used_functions[(modname, qual)] = n._sha
+    env = Env(mod.__env__, "function", qual=qual.rsplit(".<locals>.", 1)[0], locals_=set(variables))
+    env.vars.update(variables)
+    fn = IFunction(self, n, env, qual, modname)
+    fr = Frame(self, env, modname, env.qual)
+    fn.defaults = [fr.eval(d) for d in n.args.defaults]
+    fn.kw_defaults = {p.arg: fr.eval(d) for p, d in zip(n.args.kwonlyargs, n.args.kw_defaults) if d is not None}
+    return fn
+
+  def exec_block_in(self, modname, qual, first_pred, last_pred, variables):
+    """Mechanical extraction of a contiguous statement block of a function body (from the first
+    statement satisfying first_pred through the first later one satisfying last_pred); executes it over the
+    given variables and returns the resulting variables."""
+    mod = self.load_module(modname)
+    n = self.fn_nodes.get((modname, qual))
+    if n is None:
+      raise Undecided(f"function {modname}:{qual} not found (renamed or removed)")
+    self.used_functions[(modname, qual)] = n._sha
+    if not hasattr(n, "_numbered"):
+      _number_nodes(n)
+      n._numbered = True
+    body = n.body
+    i0 = next((i for i, st in enumerate(body) if first_pred(st)), None)
+    if i0 is None:
+      raise Undecided(f"block start not found in {modname}:{qual}")
+    i1 = next((i for i in range(i0, len(body)) if last_pred(body[i])), None)
+    if i1 is None:
+      raise Undecided(f"block end not found in {modname}:{qual}")
+    env = Env(mod.__env__, "function", qual=qual, locals_=set(variables))
+    env.vars.update(variables)
+    fr = Frame(self, env, modname, qual)
+    fr.exec_block(body[i0:i1 + 1])
+    return env.vars
+
   def function_sha(self, modname, qual):
     n = self.fn_nodes.get((modname, qual))
     if n is None:
